@@ -689,6 +689,26 @@ class Case:
             n += 1
             a = st.args[-1]
             r = join(r, self.container(f, a, st, which, depth + 1) if st.func.attr in ("extend", "update") else self.of(f, a, st, depth + 1))
+        # container fields of dataclasses are filled through the constructor
+        for c in ctx.m.classes.values():
+            if attr in c.fields and c.fields[attr].assigns and all(q is None for q, _, _ in c.fields[attr].assigns):
+                names = [st.target.id for st in c.node.body if isinstance(st, ast.AnnAssign) and isinstance(st.target, ast.Name)]
+                if attr not in names:
+                    continue
+                idx = names.index(attr)
+                for g in ctx.m.funcs.values():
+                    if g.rel.endswith("debug.py"):
+                        continue
+                    for call in (x for x in ast.walk(g.node) if isinstance(x, ast.Call) and isinstance(x.func, ast.Name) and x.func.id == c.name):
+                        if ctx.m.enclosing_func(call) is not g:
+                            continue
+                        a = call.args[idx] if idx < len(call.args) else next((kw.value for kw in call.keywords if kw.arg == attr), None)
+                        if a is None or isinstance(a, ast.Constant):
+                            continue
+                        if isinstance(a, (ast.List, ast.Set, ast.Dict)) and not (a.keys if isinstance(a, ast.Dict) else a.elts):
+                            continue
+                        n += 1
+                        r = join(r, self.container(g, a, call, which, depth + 1))
         res = (r if r is not None else NEUTRAL) if n else UNKNOWN
         self._cont[key] = res
         return res
